@@ -37,6 +37,8 @@ def build_input(call):
             return b'b%d' % i
         if elem == 'list':
             return [i, 7]
+        if elem == 'bigtuple':          # a task argument much larger than a pipe buffer
+            return (i, 'x' * int(call.get('arg_bytes', 300000)))
         if elem == 'none':
             return None
         raise ValueError(elem)
@@ -294,6 +296,8 @@ def run_call(pool, call, res):
 
                 def ecb(e, _j=j):
                     log.append(['ecb', _j['id'], type(e).__name__, repr(e.args)])
+                    if _j.get('ecb_sleep'):
+                        time.sleep(_j['ecb_sleep'])
                 kw = {}
                 if j.get('timeout') is not None:
                     kw['task_timeout'] = j['timeout']
